@@ -42,9 +42,9 @@ structure Rel (C : TQContract) (m : C05.M) (s : State) : Prop where
 /-- the part of the monitor's state that API calls do not touch -/
 def Ctl (m m' : C05.M) : Prop :=
   m'.inRun = m.inRun ∧ m'.fired = m.fired ∧ m'.polled = m.polled ∧ m'.startRunnable = m.startRunnable ∧
-  m'.startIntr = m.startIntr ∧ m'.mustFire = m.mustFire ∧ m'.stop = m.stop
+  m'.startIntr = m.startIntr ∧ m'.mustFire = m.mustFire ∧ m'.stop = m.stop ∧ m'.looked = m.looked
 
-theorem Ctl.refl (m : C05.M) : Ctl m m := ⟨rfl, rfl, rfl, rfl, rfl, rfl, rfl⟩
+theorem Ctl.refl (m : C05.M) : Ctl m m := ⟨rfl, rfl, rfl, rfl, rfl, rfl, rfl, rfl⟩
 
 theorem dropId_of_fresh (m : C05.M) (id : Nat) (h1 : id ∉ m.imms.map (·.id)) (h2 : id ∉ m.nets.map (·.id))
     (h3 : id ∉ m.tms.map (·.id)) : C05.dropId m id = m := by
